@@ -18,7 +18,7 @@ import langengine as le
 
 def other_profiles(tier):
     q = tier == "quick"
-    return [("MCGenScope", {"MAXSTMTS": 4 if q else 5, "MAXDEPTH": 3, "EVENTS": 0}),
+    return [("MCGenScope", {"MAXSTMTS": 4, "MAXDEPTH": 3 if q else 4, "EVENTS": 0}),
             ("MCGenFn", {"MAXSTMTS": 3 if q else 4, "MAXDEPTH": 3, "EVENTS": 0}),
             ("MCGenArr", {"MAXSTMTS": 3 if q else 4, "MAXDEPTH": 2, "EVENTS": 0, "ARRTY": "num", "ARRLOOP": "0"}),
             ("MCGenMemFn", {"MAXSTMTS": 3 if q else 4, "MAXDEPTH": 3, "EVENTS": 0})]
